@@ -32,3 +32,7 @@ package aggregator
 //@   ensures[drop_exact; C03,C11] result == (a.DropRaw && matchSpec(a.Matcher, buf[0][..]))
 //@   ensures[unlocked] !a.reCacheMutex.held
 //@   ensures[coherent] cacheOK(a)
+
+//@ func (a *Aggregator) Shutdown()
+//@   trusted
+//@   modifies closed(a.shutdown), a.wg.n
